@@ -76,6 +76,7 @@ RULES = [
  ('generator of addresses gives its values also when iterative', 'C05', 'generator-of-addresses-differs (workbook saved with iterative calculation on: the generator was used up by the first pass, evaluate returned ())'),
  ('written over a formula cell replaces the formula', 'C09', 'after-repair-differs/after-a-write-to-a-former-precedent/plain/* (the overwritten failing cell failed again after a write to a cell its former formula read)'),
  ('only a constant of the math module', 'C09', 'first-failure-is-not-a-pycel-error/*/nosuch-constant/* (=TAU(...): bare TypeError from inspect instead of UnknownFunction)'),
+ ('look a reference up in the workbook of the formula which calls them', 'C07', 'result-differs-under-interleaving/cellref + stress-result-differs/cellref (CELL("contents", ref) read the cell of the workbook that loaded the function last)'),
  ('an array and an error value', 'C13', 'array-formula-member-not-pointwise/array-with-error-valued-scalar'),
 ]
 
